@@ -76,3 +76,7 @@ impl Iterator for WordIdIter {
 }
 
 impl FusedIterator for WordIdIter {}
+
+// verification hook: harness text lives outside the repository (see MANIFEST.hooks)
+#[cfg(any(kani, sudachi_verif))]
+include!(concat!(env!("SUDACHI_VERIF_DIR"), "/dic__lexicon__word_id_table.rs"));
